@@ -23,6 +23,17 @@
 //   - exactly one tx goes to the protocol sustainability address, its value equals
 //     GetProtocolSustainabilityRewards() and is >= the configured protocol reward (it receives
 //     the remainders, it never pays for them).
+//
+// Findings on the unchanged tree (both outside the design's expectation "holds"):
+//  1. V1 (rewardsCreator): the block reward of a validator classified offline is added to the
+//     protocol sustainability tx in computeValidatorInfoPerRewardAddress but not to
+//     accumulatedRewards, so the final "difference" adjustment gives it to the protocol a second
+//     time: sum of reward txs = amount to distribute + offline validators' block rewards.
+//  2. V1 and V2: when nothing is left for the protocol sustainability address (configured
+//     reward 0 and no remainders, e.g. an epoch with nothing to distribute) a zero-value reward
+//     tx to that address is still created.
+//
+// /verif/fixes/C35.diff repairs both (package tests pass).
 package main
 
 import (
@@ -527,9 +538,6 @@ func (rn *runner) run(r *rig, v2 bool, s vset, e econ, a *acc) {
 	tags := ""
 	if offlineWithBlocks {
 		tags += ":validator-classified-offline-has-signed-blocks"
-	}
-	if metaRcv {
-		tags += ":metachain-reward-address"
 	}
 	if !v2 && sum.Cmp(expected) > 0 {
 		// signature refinement only (never decides the verdict): is the excess exactly the V1
